@@ -14,6 +14,8 @@ CONSTANTS
   AtomicCommit = FALSE
   SnapshotScan = TRUE
   Alias = {}
+  TrackTouch = FALSE
+  MisTag = {}
 INVARIANTS TypeOK ReadsLastCommitted ScansExactMembers IterSound
 PROPERTY OnlyCommitChanges
 CHECK_DEADLOCK FALSE
